@@ -349,6 +349,12 @@ Ipc::StoreMap::freeEntryByKey(const cache_key *const key)
         if (s.sameKey(key))
             s.waitingToBeFreed = true; // mark to free it later
     }
+
+    // A concurrent closeForUpdating() may have relocated the entry to a fresh
+    // anchor after we computed idx. Its last waitingToBeFreed check may predate
+    // our mark above, so propagate the deletion to the current anchor ourselves.
+    if (fileNoByKey(key) != idx)
+        freeEntryByKey(key);
 }
 
 bool
